@@ -7,6 +7,7 @@ On every feasible path: #closures and #heap objects after step N == after step 2
 SlotMap::get_unchecked on a dead key (use after release).
 """
 import os
+import re
 import sys
 import time
 
@@ -49,26 +50,42 @@ class LeakAnalysis(progcheck.ProgramAnalysis):
         self.result['checks'] += 1
         if k == self.steps - 1:
             a, b = self.counts[n - 1], self.counts[self.steps - 1]
-            for key in a:
-                if a[key] != b[key]:
-                    raise LeakViolation('%s: %d live objects after sample %d but %d after sample %d (growth without bound)' % (key, a[key], n, b[key], self.steps))
+            grow = ['%s%+g' % (key, (b[key] - a[key]) / float(n)) for key in a if a[key] != b[key]]
+            if grow:
+                raise LeakViolation('live objects per sample between sample %d and %d: %s (growth without bound) [%s]' % (
+                    n, self.steps, ' '.join(grow), ', '.join('%s %d->%d' % (key, a[key], b[key]) for key in a if a[key] != b[key])))
             self.result.setdefault('count_samples', []).append(dict(after_N=a, after_2N=b))
 
 
 def confirm(path, d, steps):
+    """re-run the witness inputs on the real runtimes (mmdump replay records closures.len() / heap.len() after every sample): the
+    claimed growth per sample of every observable counter must be what the real run shows"""
     rr = common.replay(dict(src_path=path, backend='both', steps=steps, inputs=d.get('inputs', []), timeout_s=30))
     out = {}
-    ok = False
     n = steps // 2
+    real = {}
     for be in ('vm', 'wasm'):
         b = rr.get(be, {})
         cl, hp = b.get('closures_len') or [], b.get('heap_len') or []
         out[be] = dict(closures_len=cl, heap_len=hp, panic=b.get('panic'))
         if b.get('panic') or b.get('crash'):
-            ok = True
-        if len(cl) >= steps and (cl[n - 1] != cl[steps - 1] or hp[n - 1] != hp[steps - 1]):
-            ok = True
-    return ok, out
+            return True, out
+        if len(cl) >= steps:
+            real[be + '_closures'] = (cl[steps - 1] - cl[n - 1]) / float(n)
+        if len(hp) >= steps:
+            real[be + '_heap'] = (hp[steps - 1] - hp[n - 1]) / float(n)
+    m = re.search(r'and \d+: (.*?) \(growth', d.get('msg', ''))
+    claimed = {}
+    for tok in (m.group(1).split() if m else []):
+        mm = re.match(r'^(\w+?)([+-][0-9.e+-]+)$', tok)
+        if mm:
+            claimed[mm.group(1)] = float(mm.group(2))
+    out['claimed_per_sample'] = claimed
+    out['real_per_sample'] = real
+    checked = [k for k in claimed if k in real]
+    if not checked:
+        return False, out
+    return all(abs(claimed[k] - real[k]) < 1e-9 for k in checked), out
 
 
 def run(tier, seed):
@@ -90,10 +107,15 @@ def run(tier, seed):
             continue
         npaths += r.get('paths', 0)
         path = r.get('path')
-        done = False
+        seen = set()
         for d in r.get('panics', []):
-            if done:
-                break
+            if d['kind'] == 'leak':
+                m = re.search(r'and \d+: (.*?) \(growth', d['msg'])
+                key = '%s:%s' % (r['program'], m.group(1).replace(' ', ',') if m else 'leak')
+            else:
+                key = '%s:%s' % (r['program'], d['kind'])
+            if key in seen:
+                continue
             rep.replays += 1
             if d['kind'] == 'leak':
                 ok, detail = confirm(path, d, r['steps'])
@@ -102,10 +124,10 @@ def run(tier, seed):
                 ok, detail = c03.confirm(path, d, r['steps'], 'vm')
                 if not ok:
                     ok, detail = c03.confirm(path, d, r['steps'], 'wasm')
-            rec = dict(program=r['program'], kind=d['kind'], msg=d['msg'], where=d.get('where'), model=dict(inputs=d.get('inputs')), replay=detail)
+            rec = dict(program=r['program'], key=key, kind=d['kind'], msg=d['msg'], where=d.get('where'), model=dict(inputs=d.get('inputs')), replay=detail)
             if ok:
-                done = True
-                rep.finding(r['program'], rec)
+                seen.add(key)
+                rep.finding(key, rec)
             else:
                 rep.inconclusive.append('%s: "%s" did not reproduce on the real runtimes' % (r['program'], d['msg'][:90]))
         if len(rep.samples) < 8 and r.get('count_samples'):
